@@ -66,6 +66,13 @@ impl XWorld {
             4 => 100 + c.a(300) as usize,
             _ => 1 + c.a(3 * 4096) as usize,
         };
+        // rarely a region of a little more than 1 MiB (256 pages), for accesses that span hundreds of pages
+        let size = if c.a(200) == 0 {
+            c.count("probe.xen_region_of_more_than_256_pages");
+            (257 + c.a(5) as usize) * 4096 + c.a(4096) as usize
+        } else {
+            size
+        };
         let base = 0x1000 * (1 + c.a(64) as u64);
         c.sys.xen = Some(XenDev::new());
         c.sys.redzone = true;
@@ -501,7 +508,7 @@ fn one_op(w: &mut XWorld) -> (String, &'static str, Result<(), String>) {
     }
     match k {
         0 => {
-            let n = 1 + cx().a(room.min(6000) as u32) as usize;
+            let n = if size > 256 * 4096 && cx().a(2) == 0 { room } else { 1 + cx().a(room.min(6000) as u32) as usize };
             let data: Vec<u8> = (0..n).map(newb).collect();
             let r = res(catch(|| w.region.write(&data, at)));
             let ok = match &r {
@@ -515,7 +522,7 @@ fn one_op(w: &mut XWorld) -> (String, &'static str, Result<(), String>) {
             (format!("write(buf[{}], {})", n, off), "write", ok)
         }
         1 => {
-            let n = 1 + cx().a(room.min(6000) as u32) as usize;
+            let n = if size > 256 * 4096 && cx().a(2) == 0 { room } else { 1 + cx().a(room.min(6000) as u32) as usize };
             let mut buf = vec![0u8; n];
             let r = res(catch(|| w.region.read(&mut buf, at)));
             let ok = match &r {
